@@ -5,9 +5,10 @@ V = os.path.dirname(os.path.dirname(os.path.abspath(__file__)))
 props = [json.loads(l)["id"] for l in open(os.path.join(V, "properties.jsonl"))]
 checks = []
 claimed = set()
+ready = set(open(os.path.join(V, "claimed.txt")).read().split())
 for p in sorted(glob.glob(os.path.join(V, "checks", "C*.json"))):
     c = json.load(open(p))
-    if c.get("disabled"):
+    if c.get("disabled") or c["id"] not in ready:
         continue
     cid = c["id"]
     claimed.add(cid)
